@@ -55,7 +55,9 @@ class TxPartner:
     def __init__(self, case, max_idle=80):
         self.case = case
         self.hdrs = case["hdrs"]
-        ov = case.get("overtake") or {}
+        ov = case.get("overtake")
+        if not isinstance(ov, dict):
+            ov = {}
         self.ov_lbads = ov.get("lbads", [])            # per corrupted header [kind, off, lbad_delay]
         self.ov_ack = ov.get("ack_delay") or None      # slow acknowledger: several LGOODs pending
         self.noise = deque(ov.get("corrupt") or case.get("noise", []))
